@@ -187,7 +187,7 @@ fn judge(sc: &Scenario, call: &Call, out: &RunOutcome, o: &CallOutcome) -> Judge
     // error shape dictated by the file-system conversation
     let fatal: Option<&Event> = out.log.iter().find(|e| match &e.answer {
         Answer::Err(_) if e.op == "open" => true,
-        Answer::Stream { end, utf8, .. } => *end != "eof" || !*utf8,
+        Answer::Stream { end, utf8, .. } => end != "eof" || !*utf8,
         _ => false,
     });
     if let Some(e) = fatal {
@@ -203,7 +203,7 @@ fn judge(sc: &Scenario, call: &Call, out: &RunOutcome, o: &CallOutcome) -> Judge
         let got = d.err.clone().unwrap_or_else(|| "Ok".to_string());
         match &e.answer {
             Answer::Err(kind) => {
-                let want = wrap(format!("File({:?},{:?})", kind, std::path::PathBuf::from(&e.raw_path)));
+                let want = wrap(format!("File({},{:?})", kind, std::path::PathBuf::from(&e.raw_path)));
                 if got != want {
                     return Judged {
                         violation: Some(mk(
@@ -218,7 +218,7 @@ fn judge(sc: &Scenario, call: &Call, out: &RunOutcome, o: &CallOutcome) -> Judge
                 }
             }
             Answer::Stream { end, utf8, .. } => {
-                if *end == "eof" && !*utf8 {
+                if end == "eof" && !*utf8 {
                     let want = wrap(format!("ReadUtf8({:?})", std::path::PathBuf::from(&e.raw_path)));
                     if got != want {
                         return Judged {
@@ -332,7 +332,8 @@ impl Property for C08 {
                 sc.family = "corpus".into();
             }
             7 | 8 => {
-                let base = match rng.below(4) {
+                let base = match rng.below(7) {
+                    4 | 5 | 6 => gen::macro_program(&mut rng),
                     0 => gen::corpus_sv(&mut rng, 800).to_string(),
                     1 => gen::polluter(&mut rng),
                     2 => {
@@ -345,9 +346,10 @@ impl Property for C08 {
                         c.files[*rng.pick(&names)].text.clone().unwrap_or_default()
                     }
                 };
-                let text = gen::mutate(&mut rng, &base);
+                let text = if rng.chance(1, 3) { base } else { gen::mutate(&mut rng, &base) };
                 sc.vfs.push(VNode::file("/w/top.sv", &text));
-                sc.vfs.push(VNode::file("/w/included.svh", "wire inc;\n"));
+                sc.vfs.push(VNode::file("/w/included.svh", "wire inc;\n`define M0 inc0\n"));
+                sc.vfs.push(VNode::file("/w/f", "`M1\n"));
                 call = Call::new(*rng.pick(&[Api::ParseSv, Api::ParseLib, Api::Preprocess]), "top.sv");
                 call.include_paths = vec!["/w".into()];
                 sc.family = "mutated".into();
